@@ -181,8 +181,14 @@ def run_case(case, res):
             if tree_listing(t4) != got:
                 bad.append("compressed save/load changed the listing")
             # the directory changes and is scanned again in the same process: the second scan mirrors the *new* state
+            t_late = load_tree_from_fs(root, sort=sort)  # returned before the change, read only after it
             changed = mutate_dir(rng, root)
             if changed:
+                late = tree_listing(t_late)
+                res.count("late_reads_after_change")
+                if (late != ref) if sort else (normalize(late) != normalize(ref)):
+                    bad.append(f"a tree returned before the directory changed ({changed}) and read afterwards does not carry the "
+                               f"scanned state: got {late!r}, scanned {ref!r}")
                 ref2 = ref_walk(root, sort)
                 t5 = load_tree_from_fs(root, sort=sort)
                 got5 = tree_listing(t5)
